@@ -418,3 +418,125 @@ Proof.
   rewrite RK; [|constructor; [exact HR | constructor] | left; reflexivity | lia].
   destruct t; try discriminate. reflexivity.
 Qed.
+
+(* ---- skeleton of the round trip: from the root's token stream ------------------------------------------- *)
+Theorem parse_render_root pm e0 ns name attrs kids :
+  let t := Tag ns name attrs kids in
+  open_element initial_env (qname pm ns name) (root_tok_attrs pm attrs) = Some (e0, ns, name, attrs) ->
+  all_resolve e0 pm kids ->
+  Forall tok_ok (toks_root pm t) -> no_adj_ttext (toks_root pm t) ->
+  parse (render_toks (toks_root pm t)) = Some (merge_tree t).
+Proof.
+  intros t HO HK HT HA. unfold parse.
+  rewrite lex_render; [|exact HT|exact HA|pose proof (render_toks_length _ HT); lia].
+  unfold t in *. cbn [toks_root] in *. cbv zeta in *. set (q := qname pm ns name) in *.
+  destruct kids as [|k0 kids'].
+  - cbn [null length]. cbn [read_kids]. revert HO. match goal with |- context [open_element ?a ?b ?c] => destruct (open_element a b c) as [[[[e1 ns1] l1] ras1]|] end; intros HO; [|discriminate HO]. injection HO as -> -> -> ->. reflexivity.
+  - cbn [null] in *. cbv iota in *. set (kids := k0 :: kids') in *.
+    assert (HL : length (TStart q (root_tok_attrs pm attrs) false :: toks_kids pm kids ++ [TEnd q])
+                 = S (S (length (toks_kids pm kids)))) by (cbn [length]; rewrite app_length; cbn [length]; lia).
+    remember (length (TStart q (root_tok_attrs pm attrs) false :: toks_kids pm kids ++ [TEnd q])) as f eqn:Ef.
+    cbn [read_kids].
+    revert HO. match goal with |- context [open_element ?a ?b ?c] => destruct (open_element a b c) as [[[[e1 ns1] l1] ras1]|] end; intros HO; [|discriminate HO]. injection HO as -> -> -> ->.
+    rewrite (read_kids_toks e0 pm f kids [TEnd q]); [|exact HK|right; eexists _, _; reflexivity|lia].
+    rewrite str_eqb_refl. destruct f as [|f']; [lia|]. reflexivity.
+Qed.
+
+(* ---- (a) the serializer's output is the canonical spelling of the token stream ---------------------------- *)
+Lemma fold_dict_set_fresh (l : list (str * str)) : forall acc : dict str,
+  NoDup (map fst l) -> (forall k, In k (map fst l) -> ~ In k (dict_keys acc)) ->
+  fold_left (fun d kv => dict_set (fst kv) (snd kv) d) l acc = acc ++ l.
+Proof.
+  induction l as [|[k v] r IH]; intros acc ND HK; cbn [fold_left]; [rewrite app_nil_r; reflexivity|].
+  cbn [map fst snd] in *. inversion ND as [|? ? Hn ND']; subst.
+  rewrite dict_set_new by (apply HK; left; reflexivity).
+  rewrite IH; [rewrite <- app_assoc; reflexivity | exact ND' |].
+  intros k' Hk' Hin. unfold dict_keys in Hin. rewrite map_app in Hin. apply in_app_or in Hin.
+  destruct Hin as [Hin|[<-|[]]]; [apply (HK k'); [right; exact Hk' | exact Hin] | contradiction].
+Qed.
+Lemma NoDup_app_inv {A} (a b : list A) : NoDup (a ++ b) -> NoDup a /\ NoDup b /\ (forall x, In x a -> ~ In x b).
+Proof.
+  induction a as [|x a IH]; cbn [app]; intros H; [split; [constructor | split; [exact H | intros x []]]|].
+  inversion H as [|? ? Hn H']; subst. destruct (IH H') as [I1 [I2 I3]]. split; [|split; [exact I2|]].
+  - constructor; [intros Hx; apply Hn; apply in_or_app; left; exact Hx | exact I1].
+  - intros y [<-|Hy] Hb; [apply Hn; apply in_or_app; right; exact Hb | exact (I3 y Hy Hb)].
+Qed.
+Lemma nodup_raw_NoDup l : nodup_raw l = true -> NoDup l.
+Proof.
+  induction l as [|x r IH]; cbn; [constructor|]. intros H. apply andb_prop in H. destruct H as [H1 H2].
+  constructor; [|apply IH; exact H2]. apply py_in_str_nIn. destruct (py_in_str x r); [discriminate | reflexivity].
+Qed.
+Lemma open_element_nodup e q a x : open_element e q a = Some x -> NoDup (map fst a).
+Proof. unfold open_element. destruct (nodup_raw (map fst a)) eqn:E; [|discriminate]. intros _. apply nodup_raw_NoDup. exact E. Qed.
+
+Lemma gad_as_fold pm l : forall acc : dict str,
+  fold_left (fun d (a : attr) => let '(ns, local, v) := a in dict_set (qname pm ns local) (quote (escape_attr v)) d) l acc
+  = fold_left (fun d kv => dict_set (fst kv) (snd kv) d)
+              (map render_attr_data (map (fun a : attr => let '(ns, local, v) := a in (qname pm ns local, v)) l)) acc.
+Proof. induction l as [|[[ns local] v] r IH]; intros acc; [reflexivity|]. cbn [fold_left map]. rewrite IH. reflexivity. Qed.
+Lemma map_fst_render_attr_data l : map fst (map render_attr_data l) = map fst l.
+Proof. rewrite map_map. apply map_ext. intros [k v]. reflexivity. Qed.
+
+Lemma gad_eq pm attrs : NoDup (map fst (tok_attrs pm attrs)) ->
+  generate_attributes_data pm attrs = map render_attr_data (tok_attrs pm attrs).
+Proof.
+  intros ND. unfold generate_attributes_data. rewrite gad_as_fold. fold (tok_attrs pm attrs).
+  rewrite fold_dict_set_fresh; [reflexivity | rewrite map_fst_render_attr_data; exact ND | intros k _ []].
+Qed.
+Lemma root_data_eq pm attrs : NoDup (map fst (root_tok_attrs pm attrs)) ->
+  root_attributes_data pm attrs = map render_attr_data (root_tok_attrs pm attrs).
+Proof.
+  unfold root_tok_attrs. rewrite map_app. intros ND. apply NoDup_app_inv in ND. destruct ND as [N1 [N2 N3]].
+  unfold root_attributes_data. rewrite (gad_eq pm attrs N2).
+  change (map (fun kv : str * str => (fst kv, quote (escape_attr (snd kv)))) (declared_attributes pm))
+    with (map render_attr_data (declared_attributes pm)).
+  rewrite fold_dict_set_fresh; [rewrite map_app; reflexivity | rewrite map_fst_render_attr_data; exact N2 |].
+  intros k Hk Hin. rewrite map_fst_render_attr_data in Hk. unfold dict_keys in Hin. rewrite map_fst_render_attr_data in Hin.
+  exact (N3 k Hin Hk).
+Qed.
+Lemma serialize_attributes_eq l : serialize_attributes (map render_attr_data l) = flat_map render_attr l.
+Proof. induction l as [|[k v] r IH]; [reflexivity|]. cbn [map flat_map serialize_attributes]. fold serialize_attributes. unfold serialize_attributes in *. cbn [flat_map]. rewrite IH. reflexivity. Qed.
+
+Lemma render_toks_app a b : render_toks (a ++ b) = render_toks a ++ render_toks b.
+Proof. unfold render_toks. apply flat_map_app. Qed.
+
+Lemma serialize_tag_toks kids_out kids q ta data (kt : list token) :
+  data = map render_attr_data ta -> kids_out = render_toks kt ->
+  serialize_tag kids_out (negb (null kids)) q data
+  = render_toks (if null kids then [TStart q ta true] else TStart q ta false :: kt ++ [TEnd q]).
+Proof.
+  intros -> ->. unfold serialize_tag. rewrite serialize_attributes_eq. destruct kids as [|k0 r]; cbn [null negb].
+  - cbn [render_toks flat_map render_tok]. rewrite app_nil_r. reflexivity.
+  - cbn [render_toks flat_map]. fold (render_toks (kt ++ [TEnd q])). rewrite render_toks_app.
+    cbn [render_toks flat_map render_tok]. rewrite app_nil_r. rewrite <- !app_assoc. reflexivity.
+Qed.
+
+Lemma render_node_toks e pm n : resolves e pm n -> render_node pm n = render_toks (toks_node pm n).
+Proof.
+  induction n as [ns name attrs kids IHk|s|s|t c] using node_ind'; intros HR.
+  - cbn [resolves] in HR. destruct HR as [HO HK]. apply resolves_fix in HK.
+    cbn [render_node toks_node]. rewrite toks_kids_fix.
+    apply serialize_tag_toks.
+    + apply gad_eq. eapply open_element_nodup. exact HO.
+    + clear HO. induction kids as [|k r IHr]; [reflexivity|].
+      inversion IHk as [|? ? Hk Hr]; subst. inversion HK as [|? ? Rk Rr]; subst.
+      cbn [toks_kids flat_map]. fold (toks_kids pm r). rewrite render_toks_app. rewrite (Hk Rk). f_equal.
+      apply IHr; assumption.
+  - cbn. rewrite app_nil_r. reflexivity.
+  - cbn. rewrite app_nil_r. unfold COMMENT_OPEN. reflexivity.
+  - cbn. rewrite app_nil_r. unfold PI_OPEN, PI_CLOSE. cbn [app]. rewrite <- !app_assoc. reflexivity.
+Qed.
+Lemma render_kids_toks e pm kids : all_resolve e pm kids -> render_kids pm kids = render_toks (toks_kids pm kids).
+Proof.
+  induction 1 as [|k r Hk _ IH]; [reflexivity|]. cbn [render_kids toks_kids flat_map].
+  fold (render_kids pm r) (toks_kids pm r). rewrite render_toks_app, IH, (render_node_toks e pm k Hk). reflexivity.
+Qed.
+Lemma render_root_toks e0 pm ns name attrs kids x :
+  open_element initial_env (qname pm ns name) (root_tok_attrs pm attrs) = Some x ->
+  all_resolve e0 pm kids ->
+  render_root pm (Tag ns name attrs kids) = render_toks (toks_root pm (Tag ns name attrs kids)).
+Proof.
+  intros HO HK. cbn [render_root toks_root]. apply serialize_tag_toks.
+  - apply root_data_eq. eapply open_element_nodup. exact HO.
+  - eapply render_kids_toks. exact HK.
+Qed.
